@@ -15,6 +15,7 @@ import (
 	"go/types"
 	"os"
 	"path/filepath"
+	"runtime"
 	"runtime/debug"
 	"runtime/pprof"
 	"sort"
@@ -27,22 +28,24 @@ import (
 )
 
 type config struct {
-	Repo       string
-	Harness    string
-	NoMerge    bool
-	NoMemo     bool
-	MaxDepth   int
-	MaxSteps   int
-	MaxSlice   int
-	MaxPaths   int
-	TimeoutMs  int
-	Solver     string
-	Partition  bool
-	MaxViol    int
-	Verbose    bool
-	Overlays   string
-	SolverLog  string
-	CrossCheck string
+	Repo        string
+	Harness     string
+	NoMerge     bool
+	NoMemo      bool
+	MaxDepth    int
+	MaxSteps    int
+	MaxSlice    int
+	MaxPaths    int
+	TimeoutMs   int
+	Solver      string
+	Partition   bool
+	MaxViol     int
+	Verbose     bool
+	Overlays    string
+	SolverLog   string
+	CrossCheck  string
+	Internal    bool
+	JobTimeoutS int
 }
 
 var cfg config
@@ -73,6 +76,9 @@ type job struct {
 	Args    []string `json:"args"`
 	Merge   []string `json:"merge,omitempty"`   // functions to merge (spdxexp-qualified short names)
 	NoMerge bool     `json:"nomerge,omitempty"` // run without any merging
+	// whole-table harnesses cannot be explored by plain forking: when a merged function turns
+	// out to write shared state the job is inconclusive instead of being retried unmerged
+	NoFallback bool `json:"nofallback,omitempty"`
 }
 
 type vecEntry struct {
@@ -156,6 +162,10 @@ func noteGlobalUse(g *ssa.Global) {
 	}
 }
 func noteGlobalStore(g *ssa.Global) {
+	if inOnce > 0 {
+		onceInits[g.String()] = true
+		return
+	}
 	if !inInit {
 		globalWrites[g.String()] = true
 		if rs != nil && rs.noCheck > 0 {
@@ -164,7 +174,7 @@ func noteGlobalStore(g *ssa.Global) {
 	}
 }
 func noteMapWrite(m *mapVal) {
-	if globalMaps[m] && !inInit {
+	if globalMaps[m] && !inInit && inOnce == 0 {
 		globalWrites["map reachable from a global"] = true
 		if rs != nil && rs.noCheck > 0 {
 			impureMerge("write to a map reachable from a global")
@@ -173,6 +183,7 @@ func noteMapWrite(m *mapVal) {
 }
 
 var globalMaps = map[*mapVal]bool{}
+var onceInits = map[string]bool{}
 
 // static scan: which package-level variables are written outside init?
 func scanMutableGlobals(pkgs []*ssa.Package) {
@@ -467,6 +478,10 @@ func runJob(j job) *jobResult {
 	t0 := time.Now()
 	res := &jobResult{ID: j.ID, Harness: j.Harness, Args: j.Args, Asserts: map[string]*assertStat{}, PanicSites: map[string]int{}}
 	cur = res
+	jobDeadline = time.Time{}
+	if cfg.JobTimeoutS > 0 {
+		jobDeadline = t0.Add(time.Duration(cfg.JobTimeoutS) * time.Second)
+	}
 	stats = struct {
 		forks, merges, mergedPaths, mergeFallbacks, twoVar, memoHits, prunedDomAlts, mapRanges, mergeCacheHits, impliedBranches int
 	}{}
@@ -506,6 +521,22 @@ func runJob(j job) *jobResult {
 	for len(top.items) > 0 {
 		if res.Paths >= cfg.MaxPaths {
 			inconclusive(fmt.Sprintf("path budget %d exhausted", cfg.MaxPaths))
+			break
+		}
+		if res.Paths%64 == 63 {
+			var ms runtime.MemStats
+			runtime.ReadMemStats(&ms)
+			if ms.HeapAlloc > 6<<30 {
+				inconclusive("memory budget (6 GiB) exhausted")
+				break
+			}
+		}
+		if cfg.JobTimeoutS > 0 && time.Since(t0) > time.Duration(cfg.JobTimeoutS)*time.Second {
+			inconclusive(fmt.Sprintf("job time budget (%d s) exhausted after %d paths", cfg.JobTimeoutS, res.Paths))
+			break
+		}
+		if len(top.items) > 2_000_000 {
+			inconclusive("work list budget exhausted")
 			break
 		}
 		it := top.items[len(top.items)-1]
@@ -613,7 +644,7 @@ func runJob(j job) *jobResult {
 		for _, p := range allPCs {
 			neg = append(neg, mkNot(p))
 		}
-		if len(allPCs) <= 20000 {
+		if len(allPCs) <= 600 {
 			res.Partition = z3.check(neg...)
 			if res.Partition != "unsat" {
 				inconclusive("partition check: " + res.Partition)
@@ -666,8 +697,12 @@ func firstLines(s string, n int) string {
 
 func load() {
 	overlay := map[string][]byte{}
-	for _, sub := range []string{"spdxexp", "cmd"} {
+	for _, sub := range []string{"spdxexp", "cmd", "spdxexp_internal"} {
+		if sub == "spdxexp_internal" && !cfg.Internal {
+			continue
+		}
 		files, _ := filepath.Glob(filepath.Join(cfg.Harness, sub, "*.go"))
+		tgt := strings.TrimSuffix(sub, "_internal")
 		for _, f := range files {
 			if strings.HasSuffix(f, "_test.go") {
 				continue
@@ -676,7 +711,7 @@ func load() {
 			if err != nil {
 				fatal("read harness: " + err.Error())
 			}
-			overlay[filepath.Join(cfg.Repo, sub, "zz_verif_"+filepath.Base(f))] = b
+			overlay[filepath.Join(cfg.Repo, tgt, "zz_verif_"+filepath.Base(f))] = b
 		}
 	}
 	for _, kv := range strings.Split(cfg.Overlays, ",") {
@@ -753,11 +788,14 @@ func main() {
 	flag.IntVar(&cfg.MaxViol, "maxviol", 8, "violation records kept per job")
 	flag.BoolVar(&cfg.Verbose, "v", false, "verbose")
 	flag.StringVar(&cfg.Overlays, "overlay", "", "extra source overlays virtual=real,...")
+	flag.BoolVar(&cfg.Internal, "internal", false, "also load the harnesses that use library internals (harness/spdxexp_internal)")
+	flag.IntVar(&cfg.JobTimeoutS, "jobtimeout", 1200, "wall-clock budget per job in seconds (0 = none); exceeding it is inconclusive")
 	flag.StringVar(&cfg.SolverLog, "solverlog", "", "dump solver input")
 	cpuprof := flag.String("cpuprofile", "", "write a CPU profile")
 	listFuncs := flag.Bool("funcs", false, "print the functions reachable from the exported API and exit")
 	flag.Parse()
-	debug.SetGCPercent(800)
+	debug.SetGCPercent(400)
+	debug.SetMemoryLimit(3 << 30)
 	if *cpuprof != "" {
 		f, _ := os.Create(*cpuprof)
 		pprof.StartCPUProfile(f)
@@ -797,7 +835,7 @@ func main() {
 			continue
 		}
 		r := runJob(j)
-		for try := 0; try < 4 && len(impureMerged) > 0; try++ {
+		for try := 0; try < 4 && len(impureMerged) > 0 && !j.NoFallback; try++ {
 			// a merged function writes shared state on this tree: explore it by plain forking
 			var keep []string
 			dropped := []string{}
